@@ -49,6 +49,8 @@ int fstat(int fd, struct stat* s) { const long r = next_ret(K_FSTAT, fd, 0, null
 // zlib: gzdopen returns a handle or NULL; gzwrite returns the number of uncompressed bytes written, 0 on error; gzclose_w returns Z_OK or an error code
 gzFile gzdopen(int fd, const char*) { const long r = next_ret(K_GZDOPEN, fd, 0, nullptr); verif_assume(r == 0 || r == 1); return r ? reinterpret_cast<gzFile>(const_cast<long*>(g_rets)) : nullptr; }
 int gzwrite(gzFile, voidpc buf, unsigned len) { const long r = next_ret(K_GZWRITE, 0, len, buf); verif_assume(r == 0 || r == static_cast<long>(len)); return static_cast<int>(r); }
+// the string interface of zlib hands over the bytes up to the first NUL only: logged as a write of that many bytes
+int gzputs(gzFile, const char* str) { const unsigned len = static_cast<unsigned>(std::strlen(str)); const long r = next_ret(K_GZWRITE, 0, len, str); verif_assume(r == 0 || r == static_cast<long>(len)); return r ? static_cast<int>(len) : -1; }
 int gzclose_w(gzFile) { const long r = next_ret(K_GZCLOSE, 0, 0, nullptr); verif_assume(r == 0 || (r >= -6 && r <= -1)); return static_cast<int>(r); }
 const char* gzerror(gzFile, int* errnum) { *errnum = -1; return "stub"; }
 // zlib reading: gzread returns -1 on error (also for a damaged or truncated stream) or the number of uncompressed bytes stored (0 at the end);
@@ -130,6 +132,7 @@ ENTRY int verif_gzip_compressor(int fd, int sync, unsigned long size_a, const lo
     int rc = 0; *stage = 0; *fsize = 0;
     try {
         std::string a(size_a, 'a');
+        if (size_a >= 2) a[1] = '\0';            // compressed payloads are binary data (PBF): a NUL byte is ordinary content
         osmium::io::GzipCompressor c{fd, sync ? osmium::io::fsync::yes : osmium::io::fsync::no};
         *stage = 1;
         try {
